@@ -9,6 +9,7 @@ TOK = re.compile(r'''
  | (?P<cstr>c"(?:[^"\\]|\\[0-9A-Fa-f]{2}|\\\\)*")
  | (?P<qid>[%@]"(?:[^"\\]|\\.)*")
  | (?P<id>[%@][-a-zA-Z$._0-9]+)
+ | (?P<comdat>\$(?:"[^"]*"|[-a-zA-Z$._0-9]+))
  | (?P<meta>![-a-zA-Z$._0-9]*)
  | (?P<attrgrp>\#\d+)
  | (?P<hex>0x[KLMHR]?[0-9A-Fa-f]+)
@@ -1252,7 +1253,15 @@ class Emitter:
         fbodies = []
         for name in mod.order:
             if name not in keep_funcs: continue
-            if name[1:] in s.stubs: continue
+            if name[1:] in s.stubs:
+                if s.stubs[name[1:]] == 'uf':
+                    f = mod.funcs[name]
+                    ufn = '__CPROVER_uninterpreted_' + cid(name)
+                    ps = ', '.join(s.cty(t) for t, n, a in f.params)
+                    args = ', '.join(s.lname(n) for t, n, a in f.params)
+                    fbodies.append('#ifdef __CPROVER__\n%s %s(%s);\n%s { return %s(%s); }\n#else\n%s\n#endif' %
+                                   (s.cty(f.ret), ufn, ps, s.proto(f), ufn, args, s.emit_function(f)))
+                continue
             fbodies.append(s.emit_function(mod.funcs[name]))
         # prototypes for everything that is referenced
         protos = []
@@ -1270,7 +1279,7 @@ class Emitter:
         # bodies for callees that have none: reaching one is an error unless it is a declared stub
         stubtxt = []
         s.nobody_names = []
-        for f in nobody + [mod.funcs[n] for n in mod.order if n in keep_funcs and n[1:] in s.stubs]:
+        for f in nobody + [mod.funcs[n] for n in mod.order if n in keep_funcs and n[1:] in s.stubs and s.stubs[n[1:]] != 'uf']:
             nm = f.name[1:]
             kind = s.stubs.get(nm)
             r = s.L.res(f.ret)
@@ -1420,6 +1429,11 @@ uint8_t  nondet_bool(void) { return nondet_u8() & 1; }
 #endif
 /* float arithmetic as uninterpreted functions (option --uf-float): sound abstraction for equality / 2-safety obligations */
 /* symbolic x symbolic integer multiply / divide as uninterpreted functions (option --uf-int): for equivalence obligations */
+static inline uint32_t verif_iuf_add32(uint32_t a, uint32_t b) { return a + b; } static inline uint64_t verif_iuf_add64(uint64_t a, uint64_t b) { return a + b; }
+static inline uint32_t verif_iuf_sub32(uint32_t a, uint32_t b) { return a - b; } static inline uint64_t verif_iuf_sub64(uint64_t a, uint64_t b) { return a - b; }
+static inline uint32_t verif_iuf_shl32(uint32_t a, uint32_t b) { return a << b; } static inline uint64_t verif_iuf_shl64(uint64_t a, uint64_t b) { return a << b; }
+static inline uint32_t verif_iuf_lshr32(uint32_t a, uint32_t b) { return a >> b; } static inline uint64_t verif_iuf_lshr64(uint64_t a, uint64_t b) { return a >> b; }
+static inline uint32_t verif_iuf_ashr32(uint32_t a, uint32_t b) { return (uint32_t)((int32_t)a >> b); } static inline uint64_t verif_iuf_ashr64(uint64_t a, uint64_t b) { return (uint64_t)((int64_t)a >> b); }
 #ifdef __CPROVER__
 uint32_t __CPROVER_uninterpreted_mul32(uint32_t, uint32_t); uint64_t __CPROVER_uninterpreted_mul64(uint64_t, uint64_t);
 uint32_t __CPROVER_uninterpreted_udiv32(uint32_t, uint32_t); uint64_t __CPROVER_uninterpreted_udiv64(uint64_t, uint64_t);
@@ -1431,24 +1445,22 @@ uint32_t __CPROVER_uninterpreted_sub32(uint32_t, uint32_t); uint64_t __CPROVER_u
 uint32_t __CPROVER_uninterpreted_shl32(uint32_t, uint32_t); uint64_t __CPROVER_uninterpreted_shl64(uint64_t, uint64_t);
 uint32_t __CPROVER_uninterpreted_lshr32(uint32_t, uint32_t); uint64_t __CPROVER_uninterpreted_lshr64(uint64_t, uint64_t);
 uint32_t __CPROVER_uninterpreted_ashr32(uint32_t, uint32_t); uint64_t __CPROVER_uninterpreted_ashr64(uint64_t, uint64_t);
-#define VERIF_IUF(f, a, b) __CPROVER_uninterpreted_##f(a, b)
-#define VERIF_IMUL32(a, b) __CPROVER_uninterpreted_mul32(a, b)
-#define VERIF_IMUL64(a, b) __CPROVER_uninterpreted_mul64(a, b)
-#define VERIF_IUDIV32(a, b) __CPROVER_uninterpreted_udiv32(a, b)
-#define VERIF_IUDIV64(a, b) __CPROVER_uninterpreted_udiv64(a, b)
-#define VERIF_IUREM32(a, b) __CPROVER_uninterpreted_urem32(a, b)
-#define VERIF_IUREM64(a, b) __CPROVER_uninterpreted_urem64(a, b)
-#define VERIF_ISDIV32(a, b) __CPROVER_uninterpreted_sdiv32(a, b)
-#define VERIF_ISDIV64(a, b) __CPROVER_uninterpreted_sdiv64(a, b)
-#define VERIF_ISREM32(a, b) __CPROVER_uninterpreted_srem32(a, b)
-#define VERIF_ISREM64(a, b) __CPROVER_uninterpreted_srem64(a, b)
+/* operands below 256 (counts, strides, indices) keep their exact semantics so that addresses stay exact; only the
+   wide data path is abstracted */
+#define VERIF_SMALL(x) ((uint64_t)(x) < 256u)
+#define VERIF_IUF(f, a, b) ((VERIF_SMALL(a) && VERIF_SMALL(b)) ? verif_iuf_##f(a, b) : __CPROVER_uninterpreted_##f(a, b))
+#define VERIF_IMUL32(a, b) ((VERIF_SMALL(a) && VERIF_SMALL(b)) ? ((uint32_t)((a) * (b))) : __CPROVER_uninterpreted_mul32(a, b))
+#define VERIF_IMUL64(a, b) ((VERIF_SMALL(a) && VERIF_SMALL(b)) ? ((uint64_t)((a) * (b))) : __CPROVER_uninterpreted_mul64(a, b))
+#define VERIF_IUDIV32(a, b) ((VERIF_SMALL(a) && VERIF_SMALL(b) && (b) != 0) ? ((uint32_t)((a) / (b))) : __CPROVER_uninterpreted_udiv32(a, b))
+#define VERIF_IUDIV64(a, b) ((VERIF_SMALL(a) && VERIF_SMALL(b) && (b) != 0) ? ((uint64_t)((a) / (b))) : __CPROVER_uninterpreted_udiv64(a, b))
+#define VERIF_IUREM32(a, b) ((VERIF_SMALL(a) && VERIF_SMALL(b) && (b) != 0) ? ((uint32_t)((a) % (b))) : __CPROVER_uninterpreted_urem32(a, b))
+#define VERIF_IUREM64(a, b) ((VERIF_SMALL(a) && VERIF_SMALL(b) && (b) != 0) ? ((uint64_t)((a) % (b))) : __CPROVER_uninterpreted_urem64(a, b))
+#define VERIF_ISDIV32(a, b) ((VERIF_SMALL(a) && VERIF_SMALL(b) && (b) != 0) ? ((uint32_t)((int32_t)(a) / (int32_t)(b))) : __CPROVER_uninterpreted_sdiv32(a, b))
+#define VERIF_ISDIV64(a, b) ((VERIF_SMALL(a) && VERIF_SMALL(b) && (b) != 0) ? ((uint64_t)((int64_t)(a) / (int64_t)(b))) : __CPROVER_uninterpreted_sdiv64(a, b))
+#define VERIF_ISREM32(a, b) ((VERIF_SMALL(a) && VERIF_SMALL(b) && (b) != 0) ? ((uint32_t)((int32_t)(a) % (int32_t)(b))) : __CPROVER_uninterpreted_srem32(a, b))
+#define VERIF_ISREM64(a, b) ((VERIF_SMALL(a) && VERIF_SMALL(b) && (b) != 0) ? ((uint64_t)((int64_t)(a) % (int64_t)(b))) : __CPROVER_uninterpreted_srem64(a, b))
 #else
 #define VERIF_IUF(f, a, b) verif_iuf_##f(a, b)
-static inline uint32_t verif_iuf_add32(uint32_t a, uint32_t b) { return a + b; } static inline uint64_t verif_iuf_add64(uint64_t a, uint64_t b) { return a + b; }
-static inline uint32_t verif_iuf_sub32(uint32_t a, uint32_t b) { return a - b; } static inline uint64_t verif_iuf_sub64(uint64_t a, uint64_t b) { return a - b; }
-static inline uint32_t verif_iuf_shl32(uint32_t a, uint32_t b) { return a << b; } static inline uint64_t verif_iuf_shl64(uint64_t a, uint64_t b) { return a << b; }
-static inline uint32_t verif_iuf_lshr32(uint32_t a, uint32_t b) { return a >> b; } static inline uint64_t verif_iuf_lshr64(uint64_t a, uint64_t b) { return a >> b; }
-static inline uint32_t verif_iuf_ashr32(uint32_t a, uint32_t b) { return (uint32_t)((int32_t)a >> b); } static inline uint64_t verif_iuf_ashr64(uint64_t a, uint64_t b) { return (uint64_t)((int64_t)a >> b); }
 #define VERIF_IMUL32(a, b) ((uint32_t)((a) * (b)))
 #define VERIF_IMUL64(a, b) ((uint64_t)((a) * (b)))
 #define VERIF_IUDIV32(a, b) ((uint32_t)((a) / (b)))
@@ -1608,9 +1620,25 @@ def main():
     ap.add_argument('--uf-int', nargs='?', const='muldiv', default=None, help="symbolic x symbolic integer mul/div/rem ('muldiv') or also add/sub/shifts ('all') as uninterpreted functions")
     ap.add_argument('--stub', action='append', default=[], help='name=havoc|unreachable|noop (mangled name)')
     ap.add_argument('--info', default=None, help='write json with emitted functions etc.')
+    ap.add_argument('--scan-globals', action='store_true', help='no C output: report references to mutable globals in all functions reachable from the entry')
     ap.add_argument('--list-reachable', action='store_true', help='only print the defined functions reachable from the entry')
     a = ap.parse_args()
     mod = parse_module(open(a.ll).read())
+    if a.scan_globals:
+        kf, kg, kd = reachable(mod, ['@' + a.entry])
+        refs = []
+        for fn in sorted(kf):
+            for b in mod.funcs[fn].blocks:
+                for l in b['ins']:
+                    for m in REF.finditer(l):
+                        g = mod.globals.get(m.group(0))
+                        if g is None or g['const']: continue
+                        nm = m.group(0)[1:].strip('"')
+                        if nm.startswith('verif_'): continue
+                        refs.append([fn[1:].strip('"'), nm, l.strip()[:160]])
+        json.dump({'functions_scanned': len(kf), 'declared_only': sorted(n[1:].strip('"') for n in kd),
+                   'defined': sorted(n[1:].strip('"') for n in kf), 'mutable_global_refs': refs}, open(a.o, 'w'), indent=0)
+        return
     if a.list_reachable:
         kf, kg, kd = reachable(mod, ['@' + a.entry])
         json.dump({'defined': sorted(n[1:].strip('"') for n in kf), 'declared': sorted(n[1:].strip('"') for n in kd)}, open(a.o, 'w'))
@@ -1624,6 +1652,7 @@ def main():
     # stubbed functions are not followed
     saved = {}
     for k in stubs:
+        if stubs[k] == 'uf': continue     # body is kept (native side); callees stay reachable
         if '@' + k in mod.funcs:
             saved[k] = mod.funcs['@' + k].blocks
             mod.funcs['@' + k].blocks = []
